@@ -148,12 +148,18 @@ def Heap.remove (h : Heap) (idx : Nat) (key : Key) : Option (Heap × Option Nat)
         | none => none
         | some (h', x) => some (h', some x.bytes)
 
+/-- heap.go `pushInternal(entry)`: `h.indices[entry.idx] = len(h.entries); h.entries = append(h.entries, entry)`
+    (`append` overwrites the backing-array position right behind the slice) -/
+def Heap.pushInternal (h : Heap) (e : HEntry) : Option Heap :=
+  if e.idx < h.indices.length then
+    some { h with indices := h.indices.set e.idx h.live.length, live := h.live ++ [e], dead := h.dead.drop 1 }
+  else none
+
 /-- heap.go `put(key, exp, bytes)`: steal the index of the entry `Pop` left behind when
     `len(entries) < maxidx`, otherwise hand out `maxidx`; `pushInternal`; `heap.Fix(h, Len()-1)`. -/
 def Heap.put (h : Heap) (key : Key) (exp bytes : Nat) : Option (Heap × Nat) :=
-  let n := h.live.length
   let r : Option (Heap × Nat) :=
-    if n < h.maxidx then
+    if h.live.length < h.maxidx then
       match h.dead with
       | [] => none                                  -- h.entries[:n+1] out of capacity
       | d :: _ => some (h, d.idx)
@@ -161,15 +167,12 @@ def Heap.put (h : Heap) (key : Key) (exp bytes : Nat) : Option (Heap × Nat) :=
   match r with
   | none => none
   | some (h1, idx) =>
-    -- pushInternal: h.indices[entry.idx] = len(h.entries); h.entries = append(h.entries, entry)
-    if idx < h1.indices.length then
-      let h2 : Heap := { h1 with indices := h1.indices.set idx n,
-                                 live := h1.live ++ [⟨key, exp, bytes, idx⟩],
-                                 dead := h1.dead.drop 1 }
+    match h1.pushInternal ⟨key, exp, bytes, idx⟩ with
+    | none => none
+    | some h2 =>
       match h2.sift (h2.live.length - 1) h2.live.length with
       | none => none
       | some h3 => some (h3, idx)
-    else none
 
 /-- the view of the heap through the handed-out indices: `idx ↦ entry` for indices in use -/
 def Heap.find (h : Heap) (idx : Nat) : Option HEntry :=
